@@ -29,7 +29,7 @@ func guard(f func() map[string]any) (out map[string]any) {
 // innerMsg6 builds a client/server message with any subset of the options the builders look at
 func innerMsg6(rng *rand.Rand) *dhcpv6.Message {
 	m := &dhcpv6.Message{MessageType: dhcpv6.MessageType(pick(rng, 1, 1, 2, 2, 3, 4, 5, 6, 7, 8, 9, 10, 11, 0, 14, 20, 21, 22, 23, 36, 37, 100, 255))} // every kind of message can be relayed
-	copy(m.TransactionID[:], randBytes(rng, 3))
+	copy(m.TransactionID[:], rxid(rng, 3))
 	add := func(c int, p int) {
 		if rng.Intn(100) < p {
 			m.AddOption(randOpt6(rng, c, 2))
